@@ -507,7 +507,10 @@ class GeckoAsyncSpaMan(ABC, AsyncTasks):
             GeckoSpaEvent.ERROR_PROTOCOL_RETRY_COUNT_EXCEEDED,
             GeckoSpaEvent.ERROR_TOO_MANY_RF_ERRORS,
         ):
-            self._spa_state = GeckoSpaState.ERROR_NEEDS_ATTENTION
+            if self._spa is not None:
+                # (a connection attempt that was abandoned by a reset may still
+                # report its failure; there is nothing left to attend to then)
+                self._spa_state = GeckoSpaState.ERROR_NEEDS_ATTENTION
 
         elif event == GeckoSpaEvent.RUNNING_SPA_WATER_CARE_ERROR:
             assert self.facade is not None
